@@ -24,7 +24,7 @@
 static void FuncSUBSTR(TempResult* pResult, TempResult const* pArgs, unsigned ArgCnt) {
     /* a position smaller than zero is treated as zero */
     LargeInt Start = (pArgs[1].Contents.Int < 0) ? 0 : pArgs[1].Contents.Int;
-    int      cnt   = pArgs[0].Contents.str.len - Start;
+    LargeInt cnt   = (LargeInt)pArgs[0].Contents.str.len - Start;
 
     UNUSED(ArgCnt);
     if ((pArgs[2].Contents.Int != 0) && (pArgs[2].Contents.Int < cnt)) {
